@@ -195,3 +195,61 @@ func TestConcurrentShrinks(t *testing.T) {
 	}
 	t.Logf("%d trials", trials)
 }
+
+// TestConcurrentExtends: several goroutines, each with its own handle, grow one file at the same time (writes past the
+// end, truncation upwards, appends) while others read it.  Which bytes win is not asserted here (growing is a
+// check-then-act sequence, see the known findings): the race detector must stay silent and nothing may panic or hang.
+func TestConcurrentExtends(t *testing.T) {
+	fs, err := mem.NewFS()
+	if err != nil {
+		t.Fatal(err)
+	}
+	deadline := time.Now().Add(budget() / 2)
+	var problem atomic.Value
+	for round := 0; time.Now().Before(deadline) && problem.Load() == nil; round++ {
+		if err := hackpadfs.WriteFullFile(fs, "g", bytes.Repeat([]byte{'x'}, 4096), 0o644); err != nil {
+			t.Fatal(err)
+		}
+		start := make(chan struct{})
+		var wg sync.WaitGroup
+		body := []func(f hackpadfs.File){
+			func(f hackpadfs.File) { _, _ = hackpadfs.WriteAtFile(f, bytes.Repeat([]byte{'A'}, 512), 8000) },
+			func(f hackpadfs.File) { _ = hackpadfs.TruncateFile(f, 12000) },
+			func(f hackpadfs.File) {
+				_, _ = hackpadfs.SeekFile(f, 0, 2)
+				_, _ = hackpadfs.WriteFile(f, bytes.Repeat([]byte{'B'}, 700))
+			},
+			func(f hackpadfs.File) { buf := make([]byte, 16000); _, _ = hackpadfs.ReadAtFile(f, buf, 0) },
+			func(f hackpadfs.File) { _, _ = f.Stat() },
+		}
+		for i, b := range body {
+			f, err := hackpadfs.OpenFile(fs, "g", hackpadfs.FlagReadWrite, 0)
+			if err != nil {
+				t.Fatal(err)
+			}
+			wg.Add(1)
+			go func(i int, b func(hackpadfs.File), f hackpadfs.File) {
+				defer wg.Done()
+				defer f.Close()
+				defer func() {
+					if e := recover(); e != nil {
+						problem.CompareAndSwap(nil, fmt.Sprintf("goroutine %d panicked: %v", i, e))
+					}
+				}()
+				<-start
+				b(f)
+			}(i, b, f)
+		}
+		close(start)
+		done := make(chan struct{})
+		go func() { wg.Wait(); close(done) }()
+		select {
+		case <-done:
+		case <-time.After(20 * time.Second):
+			t.Fatalf("VERIF-DEADLOCK: concurrent extending operations did not finish")
+		}
+	}
+	if p := problem.Load(); p != nil {
+		t.Fatalf("VERIF-PROBLEM: %s", p)
+	}
+}
